@@ -375,7 +375,9 @@ TSRecvRet ==
 \* lines that only announce an operation whose outcome is judged at its return; GatePark /
 \* GatePass: the scenario holds / releases the dispatcher (enqueue window, interceptor, callback)
 TNote == /\ phase = "run" /\ l <= Len(Trace) /\ l' = l + 1
-         /\ E.ev \in {"SOpen", "SRecv", "HRecv", "SSendRet", "SCloseRet", "Tick", "GatePark", "GatePass"}
+         /\ E.ev \in {"SOpen", "SRecv", "HRecv", "SSendRet", "SCloseRet", "Tick", "GatePark", "GatePass",
+                     \* (metadata calls of handlers and callers: what they put on the wire is judged envelope by envelope)
+                     "HSendHdr", "HSendHdrRet", "HSetHdr", "HSetTrl", "SHdr", "SHdrRet", "STrl"}
          /\ UNCHANGED vars
 TPend == /\ Run("Pend") /\ E.c \in DOMAIN calls
          /\ pend' = pend \cup {E.c}
